@@ -68,6 +68,10 @@ func NewSession(
 			return false, nil
 		}
 	}
+	if connectionCacheSize == 0 {
+		// a read into an empty buffer returns at once with nothing: the read loop would spin and never receive
+		connectionCacheSize = 2048
+	}
 
 	s := &Session{
 		cancel:                     cancel,
